@@ -6,8 +6,13 @@
 (* input over Alpha up to MaxLen; checks the laws of the semantics on every *)
 (* (term, input); emits one CASE per term with the reference result on      *)
 (* every input.                                                             *)
-(* State: k, index into the list of terms (binary tree over 1..N so that    *)
-(* TLC's workers share the terms).                                          *)
+(* State: t, the term.  The state graph is the tree "x is the first child   *)
+(* of its successors": from a term x of depth < Depth TLC steps to every    *)
+(* unary construction over x and every binary construction with x on the    *)
+(* left and any term of depth < Depth on the right, so every term is        *)
+(* visited exactly once and TLC's workers share them.  (Large constant sets *)
+(* are avoided on purpose: TLC keeps unions lazy and re-enumerates them on  *)
+(* every reference.)                                                        *)
 (***************************************************************************)
 EXTENDS Peg, TLC, Json, FiniteSets, SequencesExt
 
@@ -43,20 +48,25 @@ Bin(n, x, y) == CASE n = "seq" -> SeqT(<<x, y>>) [] n = "choice" -> ChoiceT(<<x,
                   [] n = "lift1" -> LiftT(1, <<x, y>>) [] n = "lift3" -> LiftT(3, <<x, y>>)
                   [] n = "lift4" -> LiftT(4, <<x, y>>)
 
-RepOK(t) == t.k \in {"many", "until"} => Consumes(t.ts[1])        \* the quantifier's restriction
+RepOK(x) == x.k \in {"many", "until"} => Consumes(x.ts[1])        \* the quantifier's restriction
+
+RECURSIVE Dp(_)
+RECURSIVE DpMax(_, _)
+DpMax(ts, i) == IF i > Len(ts) THEN 0 ELSE LET d == Dp(ts[i]) m == DpMax(ts, i + 1) IN IF d > m THEN d ELSE m
+Dp(x) == IF x.ts = <<>> THEN 0 ELSE 1 + DpMax(x.ts, 1)
 
 T0 == {LeafTable[i] : i \in LeafIds}
-Step(S) == S \cup {t \in {Un(u, x) : u \in UnIds, x \in S} : RepOK(t)}
-             \cup {t \in {Bin(n, x, y) : n \in BinIds, x \in S, y \in S} : RepOK(t)}
+Step(S) == S \cup {x \in {Un(u, y) : u \in UnIds, y \in S} : RepOK(x)}
+             \cup {x \in {Bin(n, y, z) : n \in BinIds, y \in S, z \in S} : RepOK(x)}
+(* right-hand operands: every term of depth < Depth *)
+Right == IF Depth <= 1 THEN T0 ELSE Step(T0)
 NaryTerms == IF ~Nary THEN {}
              ELSE {SeqT(<<>>), ChoiceT(<<>>), LiftT(1, <<>>), LiftT(4, <<>>)}
                   \cup {SeqT(<<x>>) : x \in T0} \cup {ChoiceT(<<x>>) : x \in T0} \cup {LiftT(4, <<x>>) : x \in T0}
                   \cup {SeqT(<<x, y, z>>) : x \in T0, y \in T0, z \in T0}
                   \cup {ChoiceT(<<x, y, z>>) : x \in T0, y \in T0, z \in T0}
                   \cup {LiftT(4, <<x, y, z>>) : x \in T0, y \in T0, z \in T0}
-TermSet == (IF Depth = 0 THEN T0 ELSE IF Depth = 1 THEN Step(T0) ELSE Step(Step(T0))) \cup NaryTerms
-TermList == SetToSeq(TermSet)
-N == Len(TermList)
+Succ(x) == {z \in {Un(u, x) : u \in UnIds} \cup {Bin(n, x, y) : n \in BinIds, y \in Right} : RepOK(z)}
 
 RECURSIVE Level(_, _)
 Level(S, n) ==
@@ -67,17 +77,17 @@ RECURSIVE UpTo(_, _)
 UpTo(S, n) == IF n = 0 THEN Level(S, 0) ELSE UpTo(S, n - 1) \o Level(S, n)
 InputList == UpTo(SetToSeq(Alpha), MaxLen)
 
-ASSUME \A i \in DOMAIN TermList : WF(TermList[i])
-ASSUME PrintT(<<"CASE", ToJson([k |-> 0, ws |-> InputList, n |-> N])>>)
+ASSUME PrintT(<<"CASE", ToJson([first |-> TRUE, ws |-> InputList])>>)
 
-VARIABLE k
-Init == k = 1
-Next == \E n \in {2 * k, 2 * k + 1} : n <= N /\ k' = n
-Spec == Init /\ [][Next]_k
+VARIABLE t
+Init == t \in T0 \cup NaryTerms
+Next == /\ Depth >= 1 /\ Dp(t) < Depth /\ (Nary => t \notin NaryTerms)
+        /\ t' \in Succ(t)
+Spec == Init /\ [][Next]_t
 
-TermLaws == \A j \in DOMAIN InputList : Laws(TermList[k], InputList[j])
+TermLaws == WF(t) /\ Dp(t) <= Depth /\ \A j \in DOMAIN InputList : Laws(t, InputList[j])
 
-Emit == PrintT(<<"CASE", ToJson([k |-> k, t |-> TermList[k],
-                                 res |-> [j \in DOMAIN InputList |-> P(TermList[k], InputList[j])]])>>)
+Emit == PrintT(<<"CASE", ToJson([first |-> FALSE, t |-> t,
+                                 res |-> [j \in DOMAIN InputList |-> P(t, InputList[j])]])>>)
 
 =============================================================================
